@@ -7,7 +7,7 @@ S=$1
 SRC=/tmp/seeds/$S
 WT=/tmp/wt/confirm-$S
 export GOFLAGS=-mod=mod GOPROXY=off
-BASE=${SEED_BASE:-35f2dd2}
+BASE=${SEED_BASE:-HEAD}
 LOG=/tmp/seeds/$S/confirm.log
 exec >"$LOG" 2>&1
 git -C /repo worktree remove --force "$WT" 2>/dev/null
@@ -30,7 +30,6 @@ echo "demo exit with change: $W1"
 git clean -fdq   # drop the demonstration files (untracked) before running the existing suite
 echo "== build + suite with the change"
 go build ./... ; B=$?
-go test -vet=off -count=1 -timeout 25m ./... 2>&1 | grep -v "^ok\|no test files" | tail -60
 go test -vet=off -count=1 -timeout 25m -json ./... 2>/dev/null | python3 -c "
 import sys,json
 fails=set()
